@@ -167,6 +167,8 @@ macro_rules! payload {
                 n
             }
         }
+        // (the `plain_payloads` build has payloads without drop glue whose Clone is still not a byte copy)
+        #[cfg(not(feature = "plain_payloads"))]
         impl Drop for $name {
             fn drop(&mut self) {
                 let s = unsafe { Self::peek(self) };
@@ -183,9 +185,9 @@ macro_rules! payload {
 
 // A: 12 bytes, align 4 (the count's own alignment suffices: data offset 8)
 payload!(A, repr(C), 0, 0x0A);
-// B: 320 bytes, align 16 (over-aligned: data offset 16, padding after the count; larger than any
+// B: 4112 bytes, align 16 (over-aligned: data offset 16, padding after the count; larger than any
 // "small payload" threshold)
-payload!(B, repr(C, align(16)), 305, 0x0B00);
+payload!(B, repr(C, align(16)), 4097, 0x0B00);
 // E: element type of the header-slice family (16 bytes, align 4)
 payload!(E, repr(C), 4, 0x0E_0000);
 
